@@ -13,6 +13,7 @@ and replay files and decides the exit status.
 from __future__ import annotations
 
 import collections
+import fnmatch
 import hashlib
 import itertools
 import json
@@ -334,7 +335,7 @@ def run_property(prop, units, level, tier, seed, assumptions=(), nproc=None, onl
     for v in total.violations:
         hit = None
         for f in known:
-            if f.get("unit") in (None, v["unit"]) and f["fkey"] == v["fkey"]:
+            if f.get("unit") in (None, v["unit"]) and fnmatch.fnmatchcase(v["fkey"], f["fkey"]):
                 hit = f
                 break
         if hit is not None:
@@ -348,7 +349,7 @@ def run_property(prop, units, level, tier, seed, assumptions=(), nproc=None, onl
     for fkey, (f, vs) in known_hit.items():
         print("KNOWN-FINDING: property=%s %s [%s; %d instance(s) this run]" % (prop, f["what"], fkey, len(vs)))
 
-    rdir = os.path.join(env.VERIF, "replays", prop)
+    rdir = os.path.join(env.OUT, "replays", prop)
     status = 0
     if new_viol:
         os.makedirs(rdir, exist_ok=True)
@@ -401,7 +402,7 @@ def run_property(prop, units, level, tier, seed, assumptions=(), nproc=None, onl
         "wall_s": round(time.time() - t0, 2),
         "violations": len(new_viol) + (capped if new_viol else 0),
     }
-    edir = os.path.join(env.VERIF, "evidence")
+    edir = os.path.join(env.OUT, "evidence")
     os.makedirs(edir, exist_ok=True)
     tmp = os.path.join(edir, prop + ".json.tmp")
     with open(tmp, "w") as f:
